@@ -743,8 +743,34 @@ func runLockBalance(P *Program, cfg *RunCfg) (*Report, error) {
 		}
 		perRoot = append(perRoot, map[string]interface{}{"root": name, "paths": r.Paths, "kinds": r.PathKinds, "balance_checks": r.Obligations})
 	}
+	edges := map[string]LockEdge{}
+	for _, r := range reps {
+		for k, e := range r.LockEdges {
+			if _, ok := edges[k]; !ok {
+				edges[k] = e
+			}
+		}
+	}
 	m := mergeReports(reps)
 	m.Cfg = cfg
+	// lock-order inversions: two mutex classes acquired nested in both orders
+	var ekeys []string
+	for k := range edges {
+		ekeys = append(ekeys, k)
+	}
+	sort.Strings(ekeys)
+	for _, k := range ekeys {
+		e := edges[k]
+		if e.From >= e.To {
+			continue
+		}
+		if r, ok := edges[e.To+"->"+e.From]; ok {
+			m.Violations = append(m.Violations, &Violation{Label: "C12/lock/order-inversion/" + e.From + "|" + e.To, Harness: cfg.Name, Count: 1,
+				Msg: fmt.Sprintf("%s acquires %s (at %s) while holding %s (locked at %s), and %s acquires %s (at %s) while holding %s (locked at %s): two goroutines doing both deadlock",
+					e.Root, e.To, e.PosTo, e.From, e.PosFrom, r.Root, r.To, r.PosTo, r.From, r.PosFrom), Pos: e.PosTo})
+		}
+	}
+	m.Reached["lock-order-edges"] = len(edges)
 	// vacuity: the 'returned' marker must have been reached in (nearly) every root
 	m.Samples = nil
 	for i, pr := range perRoot {
